@@ -3,7 +3,7 @@
 From Cobweb Require Import Machine.
 From CobwebProofs Require Import ListLemmas.
 
-Definition kview (w : world) := (ticket_ctr w, tr_ev w, tr_se w, tr_er w, tr_de w, buffer w).
+Definition kview (w : world) := (ticket_ctr w, tr_ev w, tr_se w, tr_er w, tr_de w, buffer w, g_prep w, g_claim w).
 
 Lemma kview_handle_drop h w : kview (handle_drop h w) = kview w.
 Proof.
